@@ -1,5 +1,5 @@
 From Coq Require Import Extraction ExtrOcamlBasic ExtrOcamlString.
-From Oras Require Import Base.Prelude Model.Stores Model.StoresFileSpec.
+From Oras Require Import Base.Prelude Model.Stores Model.StoresFileSpec Model.StoresFileLimit.
 Extraction Language OCaml.
 Extraction "xc06.ml" mem_step mem_init mem_abs mspec_step mspec_init
-  oci_step oci_init oci_abs ospec_step ospec_init gk gkey_eqb ref_eqb run length file_step file_init runf fspec_step fspec_init d_name.
+  oci_step oci_init oci_abs ospec_step ospec_init gk gkey_eqb ref_eqb run length file_step file_init runf fspec_step fspec_init d_name file_step_lim fspec_step_lim runl.
